@@ -30,7 +30,7 @@ m = {
         "guard": "EKUT_ES_ARCHITECTURE_SIMULATOR_VERIF",
         "enable": "none needed: the checks parse /repo's sources and never execute them, so no instrumentation exists",
         "baseline_off_cmd": "cd /repo && /venv/bin/python -m pytest -q -p no:cacheprovider --timeout=900",
-        "source_commits": [],
+        "source_commits": ["2594f97", "05d580d", "b146dea", "46eb6d7", "a726f63"],
         "add_only": True,
     },
     "engines": [{
